@@ -12,7 +12,7 @@ Inductive c05_case :=
 (* ReadFrame with ReadMetaHeaders: limit, stream, per fragment (length, fields completed in it) *)
 | H2Meta (max_list sid : N) (frags : list (N * list hfield)) (obs : meta_res)
 (* HTTP/3: one ParseNext call on a reader holding input; the bytes left are compared on success *)
-| H3Next (input : bytes) (obs : h3res h3frame) (obs_rest : option bytes)
+| H3Next (body : bool) (input : bytes) (obs : h3res h3frame) (obs_rest : option bytes)
 (* dataFrame/headersFrame.Append (t = 0 / 1) *)
 | H3FrameHdr (t l : N) (obs : option bytes)
 (* settingsFrame.Append: the map, the order the call iterated it in (read back from the bytes), the bytes *)
@@ -114,6 +114,7 @@ Definition h3frame_eqb (a b : h3frame) : bool :=
 Definition h3err_eqb (a b : h3err) : bool :=
   match a, b with
   | H3EOF, H3EOF => true
+  | H3UnexpectedEOF, H3UnexpectedEOF => true
   | H3Reserved t, H3Reserved t' => t =? t'
   | H3SettingsTooLarge l, H3SettingsTooLarge l' => l =? l'
   | H3DupSetting i, H3DupSetting i' => i =? i'
@@ -168,8 +169,8 @@ Definition c05_check (c : c05_case) : bool :=
       | MErr e, MErr e' => h2err_eqb e e'
       | _, _ => false
       end
-  | H3Next i obs rest =>
-      let '(r, lft) := h3_parse_next i in
+  | H3Next body i obs rest =>
+      let '(r, lft) := h3_parse_next_b body i in
       h3res_frame_eqb r obs && match rest with Some x => bytes_eqb lft x | None => true end
   | H3FrameHdr t l obs => opt_bytes_eqb (h3_frame_header t l) obs
   | H3SettingsAppend d e other order obs =>
